@@ -28,7 +28,9 @@ CODE_POOL = ["x = 'a: b'", "x = '#c'  # comment", 'x = "q"', "x = {'b': 1}", "x 
              "if True:\n    x = 1\nelse:\n    x = 2", "x = 'é'", "x = '''a\nb'''", "x = 'it''s'",
              "x = [1,\n     2]", "x = 'yes'", "x = 1e3", "x = '- z'", "x = '%d' % 3", "x = 'a' if 1 else 'b'",
              "x = '\\\\n'", "x = \"{}\".format('~')", "pass", "x = None",
-             "x = 1\n    \ny = 2", "x = '''a\n  \nb'''", "if True:\n    x = 1\n\t\n    y = 2"]
+             "x = 1\n    \ny = 2", "x = '''a\n  \nb'''", "if True:\n    x = 1\n\t\n    y = 2",
+             "x = 1\r\ny = 2", "x = 1\ny = '\x0c'", "x = 1\ny = '\u2028'", "x = '\x85'\ny = 2", "x = '\x1b'",
+             "x = 1\ny = '\ufeff'", "x='\x07'\ny=1"]
 EXPR_POOL = ["'a: b' != ''", "not ({} or [])", "1e3 > 0", "True", "1", "'#' in '#c'", "'é' == 'é' or False",
              "(1,\n 2) != ()", "'yes' != 'no'", "[x for x in 'ab'] != []", "'- z' > ''", "not None", "0 == 0  # zero",
              "'\"q\"' != \"'\"", "2 | 1", "1 if True else 0"]
